@@ -31,30 +31,30 @@ RULE = ("call chains of 1..7 links over {plain, generator, coroutine, stackscope
         "every frame as limit. one Coq case = one live stack + a batch of queries; non-trivial = some query of the "
         "batch yields >= 2 frames or an error. py_slice/del_slice: exhaustive lists of length 0..6 (quick 0..4), "
         "bounds in {None,-8..8}, steps +-1..3")
-F13 = "F13_other_thread_limit_keeps_inner_side"
-F14 = "F14_unstarted_parent_stack_cut"
 CONFIG = dict(
     coq=["C04"], level="proof",
-    claim=("Coq theorems (all worlds: segmentations into greenlets, anchors, limits) that the executable model of "
-           "unwrap_stackslice/get_true_caller/extract_since/extract_until returns exactly the contiguous sub-list "
-           "outer..inner of the flattened true stack trimmed at the documented side, tied to the code by differential "
-           "comparison inside Coq on real stacks (cross product of anchors and limits) plus a direct f_back/parent-walk oracle."),
+    claim=("Coq theorems (all worlds: segmentations into greenlets incl. never-started parents, anchors, limits) that the "
+           "executable model of unwrap_stackslice/get_true_caller/extract_since/extract_until returns exactly the contiguous "
+           "sub-list outer..inner of the flattened true stack trimmed at the documented side (also for outer on another "
+           "thread), tied to the code by differential comparison inside Coq on real stacks (cross product of anchors and "
+           "limits) plus a direct f_back/parent-walk oracle."),
     design_ref="DESIGN.md section 5 C04",
     trusted_base=["model M_Slice.v (unwrap_stackslice, get_true_caller, py_slice) is hand-written",
                   "harness/stackgen.py abstracts the live interpreter state (f_back chains, greenlet parents, "
                   "sys._current_frames() order, module names) to M_Slice.world; f_back is assumed acyclic (CPython)"],
     assumptions=["CPython (sys.implementation.name == 'cpython'); the PyPy branches are not modelled",
                  "frames are pairwise distinct objects (NoDup) and the stack does not change during one extraction"],
-    unproved_legs=[],
-    explanation=("Two deviations from the documented behaviour were found and are reproduced deliberately (model = code): "
-                 + F13 + ": StackSlice(outer=<frame of another thread>, limit=k) keeps the k innermost frames instead of the k nearest "
-                 "outer, because the loop variable of the sys._current_frames() scan rebinds inner_frame; "
-                 + F14 + ": inside a greenlet whose parent was never started, bool(parent) is False, the greenlet "
-                 "stitching is skipped and the stack stops at the greenlet's entry although an exception would propagate on "
-                 "to the grandparent. Both are outside C04's quantifier (anchors in the calling thread; splits of one running stack)."),
+    unproved_legs=["py_slice for arbitrary start/stop/step vs a direct recursive definition: proved only for the shapes the "
+                   "code uses (step -1 with a non-negative start and stop None or >= 0; del l[n:], del l[:-n] for n >= 1); the "
+                   "general function is compared exhaustively with real Python slicing (lengths 0..6, bounds None/-8..8, "
+                   "steps +-1..3) in the correspondence",
+                   "TypeError argument checks of extract_since/extract_until are not modelled"],
+    explanation=("Findings F18 (limit with outer on another thread kept the inner side) and F19 (never-started parent "
+                 "greenlet cut the stack) were found by this check and are fixed in /repo (cc1578e, 048785c); both shapes are "
+                 "part of the generated inputs and of the direct oracle, so a recurrence is a VIOLATION."),
     timeout={"quick": 900, "thorough": 5400},
-    NOTES=("limits <= 0 and anchors outside the calling thread are part of the correspondence (the model follows Python's "
-           "slice semantics) but outside the theorems' hypotheses; TypeError argument checks are not modelled."),
+    NOTES=("limits <= 0 and anchors on suspended frames are part of the correspondence (the model follows Python's slice "
+           "semantics) but outside the theorems' hypotheses."),
 )
 
 LINKS_USER = "pgc"
@@ -90,7 +90,7 @@ def make_inputs(tier, seed):
     quick = tier == "quick"
     for ci, ch in enumerate(chains(tier, rng)):
         base = "main" if ci % 7 == 3 else "thread"
-        sig = {"_sig": F14} if "U" in ch else {}
+        sig = {}
         if quick:
             yield dict(chain=ch, api="slice", base=base, sel={"mode": "sample", "k": 500, "seed": seed}, **sig)
             yield dict(chain=ch, api="until", base=base, sel={"mode": "sample", "k": 150, "seed": seed}, **sig)
@@ -200,8 +200,8 @@ def _oz(x):
 def _world(obs):
     cur = clist("Build_cframe %d %s%%string %s" % (i, cstr(m), cbool(sd)) for i, m, sd in obs["cur"])
     nl = lambda l: clist(str(x) for x in l)
-    return "(Build_world %s %s %s %s %s)" % (
-        cur, cbool(obs["parent_active"]), clist(nl(p) for p in obs["parents"]),
+    return "(Build_world %s %s %s %s)" % (
+        cur, clist(nl(p) for p in obs["parents"]),
         clist("(%s, %s)" % (cbool(me), nl(ch)) for me, ch in obs["threads"]),
         clist(nl(ch) for ch in obs["chains"]))
 
@@ -252,6 +252,13 @@ def _expected(obs, q):
     ts = list(range(tc + 1))          # ids are positions in the flattened true stack
 
     def cut(o, i, l):
+        if o is not None and i is None and 100 <= o < 200 and (l is None or l >= 1):
+            # outer on another thread (F18): that thread's frames from outer inward, limit keeps the outer side
+            hits = [ch for me, ch in obs["threads"] if not me and o in ch]
+            if len(hits) != 1:
+                return None
+            sub = hits[0][:hits[0].index(o) + 1][::-1]
+            return sub if l is None else sub[:l]
         if (o is not None and o not in ts) or (i is not None and i not in ts):
             return None
         lo = 0 if o is None else o
@@ -289,15 +296,13 @@ def direct_oracle(desc, obs):
         return None
     if obs["problems"]:
         return "harness self-check failed: " + "; ".join(obs["problems"])
-    if desc.get("_sig") == F14 and not obs["parent_active"]:
-        return None                   # reproduced deviation F14, see CONFIG.explanation
     o2 = dict(obs, cur_user=[i for i, _, _ in obs["cur"] if i < 500])
     for q, r in obs["queries"]:
         exp = _expected(o2, q)
         if exp is not None and r != ["F", exp]:
             names = obs["names"]
             return ("%r returned %r, the true stack slice is %r (%s)" %
-                    (q, r, exp, [names[k] for k in exp]))
+                    (q, r, exp, [names[k] if k < len(names) else "<frame %d of another thread>" % k for k in exp]))
         if r[0] in ("F", "E") and any(500 <= x < 3999 for x in r[1]):
             return "%r returned one of stackscope's own frames: %r" % (q, r)
     return None
@@ -316,24 +321,25 @@ def classify(desc, obs):
 
 
 def extra_legs(tier, seed):
-    """Deliberate reproduction of the two recorded deviations with the documented behaviour."""
+    """Targeted probes of the two shapes of the fixed findings F18 / F19 (a recurrence is a violation)."""
     C = _ctx_class()
-    info = {}
     viol = []
-    c = C(dict(chain="pp", api="since", base="thread", sel=None)).run("thread")
-    # F13: outer in another thread + limit
-    rep13 = None
+    n = 0
     c2 = C(dict(chain="pp", api="slice", base="thread", sel=None)).run("thread")
     for q, r in zip(c2.queries, c2.results):
         tag, o, i, l = q[3]
         if i is None and o is not None and 100 <= o < 200 and l is not None and l >= 1:
+            n += 1
             enc = c2.encode(r)
-            if enc[0] == "F" and len(enc[1]) == l and enc[1][0] != o:
-                rep13 = {"query": q[3], "returned": enc[1], "documented_first_frame": o}
+            if enc[0] != "F" or not enc[1] or enc[1][0] != o or len(enc[1]) > l:
+                viol.append({"what": "F18 shape: StackSlice(outer=<frame of another thread>, limit=%d) returned %r, "
+                                     "must start with outer %d and keep the frames nearest it" % (l, enc, o),
+                             "input": {"query": q[3]}})
                 break
-    info[F13] = rep13 or "not reproduced (fixed?)"
     c3 = C(dict(chain="pUp", api="since", base="thread", sel=None)).run("thread")
     enc = c3.encode(c3.results[0])
-    info[F14] = ({"returned": enc[1], "true_stack": list(range((c3.tc or 0) + 1))}
-                 if enc[1] != list(range((c3.tc or 0) + 1)) else "not reproduced (fixed?)")
-    return dict(evaluations=len(c.queries) + len(c2.queries) + 1, violations=viol, info=info, known_reproduced=[])
+    n += 1
+    if enc != ["F", list(range((c3.tc or 0) + 1))]:
+        viol.append({"what": "F19 shape: extract_since(None) inside a greenlet whose parent was never started returned %r, "
+                             "the true stack is %r" % (enc, list(range((c3.tc or 0) + 1))), "input": {"chain": "pUp"}})
+    return dict(evaluations=n, violations=viol, info={"F18_F19_probes": n}, known_reproduced=[])
